@@ -308,6 +308,7 @@ pub fn c11(tier: &str, seed: u64) -> Check {
     for n in 1..=3 {
         spaces.push(c11_wconverse_space(n));
     }
+    spaces.push(crate::props::large::c11_big(thorough));
     let report = super::report(
         "C11",
         tier,
